@@ -3,6 +3,7 @@
 fault in the sender's task harmless to everyone else, plus boundedness of client-sized allocations."""
 import os
 from mirlib import *
+from common import release_gate, parse_cache_key_gap
 
 H = "pgcat::client::Client::handle::{closure#0}"
 EP = "pgcat::client::client_entrypoint"
@@ -111,18 +112,8 @@ def run(ctx):
     r2.check(not across, "no-guard-across-await", "no parking_lot/std lock guard is alive at an await point (%d coroutines scanned)" % ncor, "lock guard held across an await: %s" % across[:3])
     # ---------------- R3 unwinding cannot hand back a dirty server
     r3 = ctx.rule("C11-R3", "a panic (or dropped future) in the client task while it borrows a server cannot return that server to the pool un-cleaned: the C02 release gate is in place", floor=1)
-    isbad = F.body("pgcat::server::Server::is_bad")
-    claim = F.body("pgcat::server::Server::claim")
-    hb = F.body("<pgcat::pool::ServerPool as bb8::api::ManageConnection>::has_broken")
-    gate = None
-    if isbad and claim and hb and hb.calls("pgcat::server::Server::is_bad"):
-        setf = {proj_fields(st["lhs"])[-1] for blk, i, st in claim.assigns() if proj_fields(st["lhs"]) and st["rv"]["k"] == "use" and const_int(st["rv"]["op"]) == 1}
-        for sw in switches(isbad):
-            if sw.is_bool():
-                for o in sw.origins():
-                    if o.kind == "place" and o.proj and o.proj[-1][1:] in setf:
-                        gate = o.proj[-1][1:]
-    r3.check(gate is not None, "release-gate", "has_broken() reports a claimed-but-not-cleaned connection (field `%s`; full conditions decided by C02-R1)" % gate, "no release gate: a panic between checkout and check-in returns the server to the pool with the sender's transaction open (see C02-R2)")
+    gate, gate_why = release_gate(F)
+    r3.check(gate is not None, "release-gate", "has_broken() reports a claimed-but-not-cleaned connection (field `%s`; full conditions decided by C02-R1)" % gate, "no release gate (%s): a panic between checkout and check-in returns the server to the pool with the sender's transaction open (see C02-R2)" % gate_why)
     # ---------------- R4 the sender's own faults do not ban servers
     r4 = ctx.rule("C11-R4", "servers are banned from the client path only after a server-side I/O failure, never because of what the client sent or because a write to the client failed", floor=3)
     nb = 0
@@ -355,6 +346,15 @@ def run(ctx):
             r9.check(n9 >= 2, "non-copy-send-sites", "%d sends outside the COPY arms examined" % n9, "expected >= 2 sends outside the COPY arms, found %d" % n9)
 
     # ---------------- inventory (informational)
+    # ---------------- R10 what one client puts into the pool-wide statement cache is not served to another
+    r10 = ctx.rule("C11-R10", "a Parse that enters the pool-wide prepared-statement cache is handed to other clients only for byte-identical statements: every field of Parse that the encoder writes to the server "
+                   "(apart from the rewritten name) is part of the cache key, so a malformed twin (e.g. a negative parameter count, which the decoder accepts and the encoder writes back verbatim) cannot be cached under a well-formed statement's key", floor=1)
+    gap, encf, hashf = parse_cache_key_gap(F)
+    if gap is None:
+        r10.missing("Parse encoder / Parse::get_hash / Parse ADT")
+    else:
+        r10.check(not gap, "cache-key-covers-encoded-fields", "the cache key covers %s, all the client-supplied fields the encoder writes" % sorted(encf),
+                  "Parse.%s is written to the server from the cached message but is not part of the cache key (%s): a hostile Parse that differs only there is cached first and every other client preparing the same text is answered with the server's error for the hostile message" % (gap, sorted(hashf)))
     inv = ctx.rule("C11-INV", "inventory of panic-capable operations on data read from the client in the protocol entry functions (a panic here only ends the sender's task)", armed=False)
     tot = 0
     for fn in ENTRY_FNS:
